@@ -1,0 +1,47 @@
+//! Verification hooks, compiled only with the `verif` feature: counters of spawned / finished
+//! snapshot tasks (to detect quiescence) and named schedule points at which a test controller
+//! may pause the calling thread (to force a particular interleaving of the main loop and the
+//! worker tasks).
+use std::sync::atomic::{AtomicU64, Ordering};
+use std::sync::{Arc, RwLock};
+
+static SPAWNED: AtomicU64 = AtomicU64::new(0);
+static FINISHED: AtomicU64 = AtomicU64::new(0);
+
+type PointFn = Arc<dyn Fn(&'static str) + Send + Sync>;
+static POINT: RwLock<Option<PointFn>> = RwLock::new(None);
+
+/// (spawned, finished) snapshot tasks since process start
+pub fn task_counts() -> (u64, u64) {
+    (SPAWNED.load(Ordering::SeqCst), FINISHED.load(Ordering::SeqCst))
+}
+
+/// Install (or remove) the schedule-point callback.
+pub fn set_point_callback(f: Option<PointFn>) {
+    *POINT.write().unwrap() = f;
+}
+
+/// A named schedule point; returns when the controller lets the calling thread continue.
+pub fn point(name: &'static str) {
+    let cb = POINT.read().unwrap().clone();
+    if let Some(cb) = cb {
+        cb(name);
+    }
+}
+
+/// Wrap a task body so that the counters see its start and its end.
+pub fn track<S, P, T>(f: impl FnOnce(S, P) -> T) -> impl FnOnce(S, P) -> T {
+    SPAWNED.fetch_add(1, Ordering::SeqCst);
+    move |s, p| {
+        struct Done;
+        impl Drop for Done {
+            fn drop(&mut self) {
+                FINISHED.fetch_add(1, Ordering::SeqCst);
+                point("task:end");
+            }
+        }
+        point("task:start");
+        let _done = Done;
+        f(s, p)
+    }
+}
